@@ -340,6 +340,8 @@ def run(ctx, rep):
                 if b in an.entry and mentions(d):
                     n_obs += 1
                     ds = [d]
+                    if d.op == "ite" and d.args[1].op == "const" and d.args[2].op == "const":
+                        ds = [d.args[0]]      # the discriminant of `if c {None} else {Some(..)}` (a modelled checked operation): a branch on c
                     if d.op == "discr":
                         # `helper(..)?` where the helper is a decision tree (`if cached {Ok(A)} else if end <= len {Ok(B)} else {Err}`):
                         # the branch is on the tree's conditions; only those that mention the stream length are observations of it
